@@ -26,6 +26,7 @@ def h13_chain(S, attempts=3):
     faults = [S.flag(f"store_fails{i}") for i in range(attempts)]
     # the first attempt may also "succeed" with a value the converter cannot encode: that counts as a failed execution
     unenc0 = S.flag("attempt0_returns_unencodable")
+    no_text = S.flag("exceptions_carry_no_text")            # `raise ValueError()`: the recorded text is the empty string
     t0 = S.int("start", Y2000, Y2050)
     gaps = [S.int(f"gap{i}", 0, 3600 * SEC) for i in range(2 * attempts)]
     clock = PinnedClock(t0)
@@ -53,7 +54,7 @@ def h13_chain(S, attempts=3):
             if unenc0 and i == 0:
                 return {1, 2, 3}                 # a set is not JSON serialisable
             if fails[i]:
-                raise ValueError(f"boom{i}")
+                raise ValueError() if no_text else ValueError(f"boom{i}")
             return {"attempt": i}
 
         actor = mk_actor(fn, converter=BasicConverter, retry_policy=lambda retry_number=1: real_timedelta(0))
@@ -115,7 +116,7 @@ def h13_chain(S, attempts=3):
             S.cover("unencodable-return")
             S.check("unencodable-return-recorded-as-failure", b.exception == "TypeError", info=f"{b.data!r} {b.exception!r}")
         elif failed:
-            S.check("exception-text-and-type", b.data == f"boom{i}" and b.exception == "ValueError", info=f"{b.data!r} {b.exception!r}")
+            S.check("exception-text-and-type", b.data == ("" if no_text else f"boom{i}") and b.exception == "ValueError", info=f"{b.data!r} {b.exception!r}")
         else:
             S.check("encoded-return-value", json.loads(b.data) == {"attempt": i} and b.exception is None, info=f"{b.data!r}")
         S.check("started-not-after-finished", b.started_when <= b.finished_when)
